@@ -61,6 +61,9 @@ type Run struct {
 	lastTask int
 	post     []func()
 	inPost   bool
+	prio      map[int]int // PCT priorities by task id
+	pctChange []int
+	pctLow    int
 	sutPanic func(site, value, stack string)
 }
 
@@ -385,6 +388,12 @@ type SchedOpts struct {
 	// (Stick-1)/Stick before choosing uniformly (finds interleavings that need
 	// one task to make many uninterrupted steps inside another's window).
 	Stick int
+	// PCT > 0: probabilistic concurrency testing (Burckhardt et al., ASPLOS 2010) instead of the random walk: every
+	// task gets a random priority when it is first seen, the parked task with the highest priority runs, and at
+	// PCT-1 tape-chosen steps the running task drops below all others. An ordering bug of depth d (d ordering
+	// constraints between tasks) is hit with probability >= 1/(n*k^(d-1)) per run, where a random walk needs a
+	// long run of lucky picks (e.g. "the job submitted last finishes first").
+	PCT int
 }
 
 // DrawStick draws a per-run stickiness for SchedOpts.Stick.
@@ -499,7 +508,9 @@ func (r *Run) Sched(o SchedOpts) {
 
 		var p *simrt.Parked
 
-		if o.Stick > 1 && len(ps) > 1 && ps[0].Task.ID == r.lastTask && r.Choose(o.Stick) != o.Stick-1 {
+		if o.PCT > 0 {
+			p = r.pickPCT(ps, o.PCT)
+		} else if o.Stick > 1 && len(ps) > 1 && ps[0].Task.ID == r.lastTask && r.Choose(o.Stick) != o.Stick-1 {
 			p = ps[0]
 		} else {
 			p = ps[r.Choose(len(ps))]
@@ -509,6 +520,38 @@ func (r *Run) Sched(o SchedOpts) {
 		r.schedEvent(p.Task.ID, p.Site)
 		r.Release(p)
 	}
+}
+
+func (r *Run) pickPCT(ps []*simrt.Parked, depth int) *simrt.Parked {
+	if r.prio == nil {
+		r.prio = map[int]int{}
+		r.pctLow = -1
+
+		for i := 1; i < depth; i++ {
+			r.pctChange = append(r.pctChange, r.Steps+1+r.Choose(3000))
+		}
+	}
+
+	var best *simrt.Parked
+
+	for _, p := range ps {
+		if _, ok := r.prio[p.Task.ID]; !ok {
+			r.prio[p.Task.ID] = 1 + r.Choose(1<<20)
+		}
+
+		if best == nil || r.prio[p.Task.ID] > r.prio[best.Task.ID] || (r.prio[p.Task.ID] == r.prio[best.Task.ID] && p.Task.ID < best.Task.ID) {
+			best = p
+		}
+	}
+
+	for _, at := range r.pctChange {
+		if at == r.Steps {
+			r.prio[best.Task.ID] = r.pctLow
+			r.pctLow--
+		}
+	}
+
+	return best
 }
 
 // Do runs fn as a harness task to completion without consuming the tape:
@@ -558,6 +601,11 @@ func (r *Run) Do(name string, fn func()) {
 
 		idle = 0
 		r.Steps++
+
+		if r.Steps&1023 == 0 {
+			progress.Add(1)
+		}
+
 		p := ps[len(ps)-1]
 		r.schedEvent(p.Task.ID, p.Site)
 		r.Release(p)
